@@ -22,6 +22,13 @@ PROGRAMS = [
     (["10 DIM M(3),N$(2),O(1,2)", "20 M(1)=P(2)+Q(3)+R(1):S$(1)=N$(1)+T$(2)"], {"initialize_vars": True, "default_str_storage": 64}),
     (["10 FOR I=1 TO 3:FOR J=1 TO 2:U(I)=V(J):NEXT:NEXT", "20 IF A=1 THEN 10 ELSE IF B=2 THEN 20 ELSE K(1)=L(2)"], {}),
     (["10 PRINT \"HELLO\""], {"output_dependencies": True, "procname": "hello", "default_str_storage": 48}),
+    # numeric and string arrays / scalars of one base name (orderings that tie unless the whole name is compared)
+    (["10 A(1)=1:A$(1)=\"X\":B$(2)=\"Y\":B(2)=2:C(1)=3:C$(1)=\"Z\":D$(1)=\"W\":D(1)=4", "20 A=1:A$=\"Q\":B$=\"R\":B=2"],
+     {"initialize_vars": True, "default_str_storage": 80}),
+    # conversions that share procedure name and string size but need different runtime procedures
+    (["10 PRINT \"HELLO\""], {"output_dependencies": True, "procname": "prog"}),
+    (["10 Z$=STRING$(3,\"A\"):LOCATE 1,2:Z=POINT(1,2)"], {"output_dependencies": True, "procname": "prog"}),
+    (["10 PLAY \"C\""], {"output_dependencies": True, "procname": "hello", "default_str_storage": 48}),
 ]
 DECODES = [("hrstoppm", [], "monalisa.hrs"), ("maxtoppm", ["-br"], "eye4.max"), ("mgetoppm", [], "dragon1.mge"), ("rattoppm", [], "watrfall.rat"),
            ("cm3toppm", [], "clip1.cm3"), ("veftopng", [], "trekies.vef"), ("pixtopgm", [], "sue.pix"), ("maxtoppm", ["-newsroom"], "shamrock.art")]
@@ -49,6 +56,8 @@ def main():
     if not thorough:
         hists = [h for h in hists if len(h) == 1] + gen.sample(rng, [h for h in hists if len(h) == 2], 120) + \
                 [[a, b, a] for a in range(0, n, 3) for b in range(1, n, 5)]
+    deps = [k for k, c in enumerate(calls) if c["kind"] == "convert" and c["opts"].get("output_dependencies")]
+    hists += [[a, b] for a in deps for b in deps if a != b and [a, b] not in hists]
     rep.count("histories", len(hists))
     seeds = list(range(64)) if thorough else [0, 1, 2, 3, 4, 5, 6, 7, 99, 12345]
     # canonical results: each call alone, seed 0
